@@ -44,6 +44,42 @@ def gen_tie_cases(ctx, scale):
                         if present:
                             dst.append((b0[idx] // 100) * 100 + 99 - (b0[idx] % 100) % 50)
                         cases.append('xi %s %s %d %s %s' % (c, kind, idx, fmt(dst), fmt(b0)))
+    # the GENERATED holder state machine against a real SetExtractedItem: random op sequences that respect the MOMO_CHECKs
+    for i in range(40 * scale):
+        c = CATS[i % 4]; full = False; ops = []
+        for _ in range(r.range(1, 12)):
+            t = r.below(6)
+            if t == 0: ops.append('e')
+            elif t == 1: ops.append('x'); full = False
+            elif not full:
+                if r.chance(1, 3): ops.append('C%d' % r.range(1, 99))
+                else: ops.append('c%d' % r.range(1, 99)); full = True
+            else:
+                if r.chance(1, 3): ops.append('R')
+                else: ops.append('r'); full = False
+        cases.append('eh %s %s' % (c, ' '.join(ops)))
+    # Add(pos, ExtractedItem&&) at every position of a bucket (key absent in the destination)
+    for c in CATS:
+        for kind in ('copy', 'alloc'):
+            for n in range(1, 4):
+                for idx in range(n):
+                    b0 = [(8 * j) * 100 + r.range(1, 99) for j in range(n)]
+                    dst = [(8 * j + 1) * 100 + r.range(1, 99) for j in range(r.range(0, 3))]
+                    cases.append('xa %s %s %d %s %s' % (c, kind, idx, fmt(dst), fmt(b0)))
+    # stdish set insert(hint, node&&): valid hint / wrong hint / key already present
+    for i in range(48 * scale):
+        c = CATS[i % 4]
+        kind = ('func', 'copy', 'alloc')[(i // 4) % 3]
+        dkeys = sorted(set(r.range(0, 30) for _ in range(r.range(1, 8))))
+        dst = [k * 100 + r.range(50, 99) for k in dkeys]
+        skeys = sorted(set(r.range(0, 30) for _ in range(r.range(1, 5))))
+        src = [k * 100 + r.range(1, 49) for k in skeys]
+        idx = r.below(len(src)); k = src[idx] // 100
+        present = k in dkeys
+        ub = sum(1 for d in dkeys if d < k)          # position of the first destination key >= k
+        hintpos = ub if r.chance(1, 2) else r.range(0, len(dst))
+        hint_ok = (not present) and hintpos == ub
+        cases.append('hs %s %s %d %d %d %s %s' % (c, kind, hintpos, 1 if hint_ok else 0, idx, fmt(dst), fmt(src)))
     # multi-element Insert(range) and Remove(pred) of a HashSet: arguments / layouts with present and absent keys, duplicates
     for i in range(32 * scale):
         c = CATS[i % 4]
@@ -192,7 +228,9 @@ def agree(case, impl, model):
         return bool(bi) and bool(bm) and bi[-1] == bm[-1] and set(bi) <= set(bm)
     if w[0] == 'px' and w[3] == 'alloc':
         w = [w[0]] + w[2:]
-    if len(w) > 3 and w[0] in ('hm', 'tm', 'lm', 'fm', 'xi', 'px') and (w[2] == 'alloc' or (w[2] == 'func' and w[3] in ('t', 'm') and w[0] != 'xi')):
+    if w[0] == 'hs' and w[2] in ('alloc', 'func'):
+        w = ['hm', w[1], 'alloc', 'x']        # hinted node insert into a tree: allocation / comparison steps happen only sometimes
+    if len(w) > 3 and w[0] in ('hm', 'tm', 'lm', 'fm', 'xi', 'xa', 'px') and (w[2] == 'alloc' or (w[2] == 'func' and w[3] in ('t', 'm') and w[0] != 'xi')):
         bi, bm = behaviours(impl), behaviours(model)
         if not bi or not bm or bi[-1] != bm[-1]:
             return False
@@ -223,12 +261,14 @@ def tie_oracle(ctx, case, out):
     if 'LEAK' in out or 'UNUSABLE' in out or 'INVALID-TREE' in out or 'BAD-' in out or 'HARNESS-EXCEPTION' in out or 'TOO-MANY' in out or out.strip() in ('?', ''):
         bad.append('leak / unusable container / harness problem: ' + out[:200])
         return bad
-    if w[0] in ('hm', 'tm', 'lm', 'fm', 'xi'):
+    if w[0] in ('hm', 'tm', 'lm', 'fm', 'xi', 'xa', 'hs'):
         cat = w[1]
         if w[0] == 'hm':
             dst0 = parse_items(w[4]); src0 = [x for b in w[5:] for x in parse_items(b)]; multi = (w[3] == 'm')
         elif w[0] in ('tm', 'lm', 'fm'):
             dst0 = parse_items(w[4]); src0 = parse_items(w[5]); multi = (w[3] in ('m', '1'))
+        elif w[0] == 'hs':
+            dst0 = parse_items(w[6]); src0 = parse_items(w[7]); multi = False
         else:
             dst0 = parse_items(w[4]); src0 = parse_items(w[5]); multi = False
         init = ms(src0 + dst0)
@@ -256,7 +296,7 @@ def tie_oracle(ctx, case, out):
                 bad.append('movable category %s was copied during merge' % cat)
             if cat in MOVABLE and re.search(r'(^|[ ;])C(A)? \d', b.split('dst=')[1] if 'dst=' in b else ''):
                 bad.append('movable category %s: copy event in the trace' % cat)
-            if b.startswith('S') and w[0] != 'xi':
+            if b.startswith('S') and w[0] not in ('xi', 'xa', 'hs'):
                 # completed merge: what remains in the source was refused
                 for x in src:
                     if multi or x // 100 not in set(d // 100 for d in dst):
@@ -354,6 +394,11 @@ def tie_oracle(ctx, case, out):
             if w[1] in MOVABLE and w[2] == 'rem' and re.search(r'(^|[ ;])C(A)? \d', b):
                 bad.append('positional remove copied a movable element')
         if len(bs) > 1:
+            ctx.nontrivial.add(case)
+    elif w[0] == 'eh':
+        if 'LEAK' in out or 'STUCK' in out:
+            bad.append('holder op sequence: ' + out)
+        if 'E:' in out:
             ctx.nontrivial.add(case)
     elif w[0] == 'om':
         if w[1] in MOVABLE and re.search(r'(^|[ ;])C(A)? \d', out):
@@ -541,6 +586,7 @@ def run(ctx):
         'tree sources: the leaf/internal shape of each extraction is an oracle (theorems hold for every oracle); trace-level tie only for single-leaf trees',
         'destination internals (growth, rebalancing) are abstracted to one fallible find step and one fallible allocation step per insertion; their own safety is C04/C11',
         'ExtraCheckMode::nothing in the harness containers (see NOTES.md: the debug-only extra check turns a throwing functor into an assertion failure)']
+    ctx.regen(['gen_holder.json', 'gen_holder_tree.json'])
     ctx.prove()
     exes = build_all(ctx)
     harness = exes.get('harness')
@@ -609,7 +655,7 @@ def run(ctx):
     dist = ctx.coverage.setdefault('input_distribution', {})
     dist['tie_cases_per_mode_and_category'] = dict(collections.Counter(c.split()[0] + ':' + c.split()[1] for c in cases))
     dist['tie_failure_kind'] = dict(collections.Counter(c.split()[0] + ':' + (c.split()[3] if c.split()[0] in ('px',) else c.split()[2]) for c in cases
-                                                        if c.split()[0] in ('hm', 'tm', 'lm', 'fm', 'xi', 'px', 'ir', 'rp')))
+                                                        if c.split()[0] in ('hm', 'tm', 'lm', 'fm', 'xi', 'xa', 'hs', 'px', 'ir', 'rp')))
     dist['tie_observed_behaviours_per_mode'] = dict(collections.Counter())
     for c, out in zip(cases, impl):
         dist['tie_observed_behaviours_per_mode'][c.split()[0]] = dist['tie_observed_behaviours_per_mode'].get(c.split()[0], 0) + len(behaviours(out))
